@@ -29,35 +29,23 @@ var altValid = map[string][]string{
 
 // invalid declarations (ignored wherever they stand)
 var invalidDecl = map[string][]string{
-	"system": {"system: fixed 1.5", "system: foo", "system: cyclic numeric", "system: extends", "system: extends a b"},
-	// F15: a list-valued declaration that is invalid after a valid head (`symbols: "Q" 1 "R"`,
-	// `symbols: "Q", "R"`, `additive-symbols: 1 "Q", 5 "R"`, `5 "Q", 5 "R"`, `range: 1 3, 9 7`) keeps
-	// the head; only texts that are invalid at their first item are generated.
-	"symbols":          {`symbols: 1 "Q"`, "symbols: ", `symbols: , "R"`},
-	"additive-symbols": {`additive-symbols: "Q" "R"`, `additive-symbols: -1 "Q"`, `additive-symbols: 5 "Q" 1 "R"`},
+	"system":           {"system: fixed 1.5", "system: foo", "system: cyclic numeric", "system: extends", "system: extends a b"},
+	"symbols":          {`symbols: 1 "Q"`, "symbols: ", `symbols: , "R"`, `symbols: "Q" 1 "R"`, `symbols: "Q", "R"`},
+	"additive-symbols": {`additive-symbols: "Q" "R"`, `additive-symbols: -1 "Q"`, `additive-symbols: 5 "Q" 1 "R"`, `additive-symbols: 1 "Q", 5 "R"`, `additive-symbols: 5 "Q", 5 "R"`},
 	"negative":         {`negative: "Q" "R" "S"`, "negative: 1", "negative: "},
 	"prefix":           {`prefix: "Q" "R"`, "prefix: 1"},
 	"suffix":           {`suffix: "Q" "R"`, "suffix: 1"},
-	"range":            {"range: 5 1", "range: 1", "range: auto, 1 2", "range: 1.5 3", "range: 1 2 3"},
+	"range":            {"range: 5 1", "range: 1", "range: auto, 1 2", "range: 1.5 3", "range: 1 2 3", "range: 1 3, 9 7"},
 	"pad":              {`pad: -1 "Q"`, "pad: 2", `pad: "Q"`, `pad: 1.5 "Q"`, `pad: 2 "Q" "R"`},
-	// F16: `fallback: "Q"` (a single non-identifier token) is not generated: it erases an earlier valid fallback
-	"fallback": {"fallback: none", "fallback: a b", "fallback: 1 2"},
+	"fallback":         {"fallback: none", "fallback: a b", "fallback: 1 2", `fallback: "Q"`},
 }
 
-// knownDefectNoise: noise constructs with a recorded finding (notes/C19.md), not generated.
+// knownDefectNoise: noise constructs with an open finding (notes/C19.md), not generated.  F15 (list
+// descriptors accumulate / keep a valid head), F16 (invalid prefix/suffix/fallback erases the valid
+// one), F17 (circle, square, disclosure-* overridable), F19 (extends with symbols accepted) were
+// repaired in /repo and are generated again.
 var knownDefectNoise = map[string]string{
-	"override-earlier:symbols":               "F15 list descriptors accumulate over declarations",
-	"override-earlier:additive-symbols":      "F15",
-	"override-earlier:range":                 "F15",
-	"invalid-after:prefix":                   "F16 invalid prefix/suffix declaration erases the earlier valid one",
-	"invalid-after:suffix":                   "F16",
-	"reserved-name-rule:circle":              "F17 only decimal and disc are protected",
-	"reserved-name-rule:square":              "F17",
-	"reserved-name-rule:disclosure-open":     "F17",
-	"reserved-name-rule:disclosure-closed":   "F17",
-	"single-additive-tuple":                  "F18 additive style with one tuple rejected",
-	"undefining-rule-after:extends+symbols":  "F19 extends with symbols accepted",
-	"undefining-rule-after:extends+additive": "F19",
+	"single-additive-tuple": "F18 additive style with one tuple rejected (open)",
 }
 
 var noiseKinds = []string{"override-earlier", "invalid-after", "invalid-before", "invalid-absent", "unknown-descriptor", "important", "undefining-rule-after", "overridden-rule-before", "reserved-name-rule", "single-additive-tuple"}
